@@ -291,6 +291,7 @@ def check_config(ctx, F, tag, text, lists):
     # integer writes (borrowed: C05.R3 / R4 / R2)
     from core import Relabel
     c05.check_word_count(ctx, F, tag, rule="C07.R3.raw-vector-word-count")
+    c05.check_raw_write_sites(ctx, F, tag, rule="C07.R3.raw-write-sites-reviewed")
     c05.check_grow_fill(ctx, F, tag, prefix="C07.R3.raw-vector")
     c05.check_write_int(Relabel(ctx, {"C07.R3w.value-masked-before-store": "C07.R3.raw-vector-write-stays-in-field"}), F, tag, prefix="C07.R3w")
 
